@@ -11,6 +11,7 @@ DECIDED = ("R1 Host::assign_ephemeral_port returns a candidate only behind the f
 NOT_DECIDED = ("distinctness beyond the 16-bit v4 host space, wrap-around behaviour as histories, crash releasing ports as behaviour "
                "(C04 covers the destructors).")
 DECIDED += "; R1 compares the very read that produced the returned port with the argument of both in-use checks (flow-sensitive read site)"
+DECIDED += "; R5 names never receive the address of a host registered by literal address; R6 handles identify their own incarnation of a stream-table entry (recorded finding D33)"
 ASSUMPTIONS = ["IndexMap::entry Occupied/Vacant semantics"]
 
 
